@@ -5,15 +5,17 @@ import TracklibVerif.Lemmas.GeoLambertConv
 import TracklibVerif.Lemmas.GeoHeap
 /-! # C14 — coordinate conversions round-trip and agree with the WGS84 ellipsoid
 
-Property theorems only (helpers: `Lemmas/Geo.lean`, `Lemmas/GeoTrack.lean`, `Lemmas/GeoLambert.lean`, `Lemmas/GeoLambertConv.lean`). They are about the
-model `Model/Geo.lean` (the operations of `tracklib/core/obs_coords.py` and of `Track.to*Coords`, in the same order),
-instantiated at `ℝ` with Mathlib's functions: `realTrig` = `Real.sin, Real.cos, Real.tan, Real.arctan, Real.sqrt, Real.log,
+Property theorems only (helpers: `Lemmas/Geo.lean`, `Lemmas/GeoTrack.lean`, `Lemmas/GeoLambert.lean`, `Lemmas/GeoLambertConv.lean`,
+`Lemmas/GeoHeap.lean`). They are about the model `Model/Geo.lean` (the operations of `tracklib/core/obs_coords.py` and of
+`Track.to*Coords`, in the same order) and, from T12 on, about `Model/GeoHeap.lean` (the same methods called on shared,
+mutable objects: identity, aliasing, in-place updates, `Track` holding references), instantiated at `ℝ` with Mathlib's functions: `realTrig` = `Real.sin, Real.cos, Real.tan, Real.arctan, Real.sqrt, Real.log,
 Real.exp`, `pow = Real.rpow`, `atan2 y x = Complex.arg (x + i y)`, `pi = Real.pi`. Angles of `V3` values are in degrees,
 as in the Python. Everything about the local frame holds for *any* `Trig ℝ` whose `sin`/`cos` satisfy `sin² + cos² = 1`
 (`Pyth T`), and is stated that way. IEEE rounding is outside these statements (sampled by the transfer check).
 
 What has no exact identity and is therefore not a theorem: `ECEFCoords.toGeoCoords` for `h ≠ 0` (Bowring's one-step formula
-is an approximation, about 1.3 µm at 10 km); see the `_partial` theorems. -/
+is an approximation, about 1.3 µm at 10 km); see the `_partial` theorems and `geo_ecef_geo_residual` (T5'), which reduces the
+round trip at every height, longitude and base to two explicit functions of (latitude, height) that the harness bounds on a grid. -/
 namespace TV.C14
 open TV.Geo Real
 
@@ -78,8 +80,9 @@ theorem lon_recovered (g : V3 ℝ) (hlon1 : -180 < g.x) (hlon2 : g.x ≤ 180) (h
 
 /-- T5 (partial) On the ellipsoid (`h = 0`) the closed-form inverse `ECEFCoords.toGeoCoords` is exact: longitude,
 latitude and height all come back. Together with T4 this is the exact part of Geo → ECEF → Geo.
-MISSING: latitude and height for `h ≠ 0`. There Bowring's one-step formula is an approximation (no identity to prove);
-the bound 1e-9° / 1 mm for −1 km ≤ h ≤ 10 km rests on the correspondence and transfer checks. -/
+MISSING: latitude and height for `h ≠ 0`. There Bowring's one-step formula is an approximation (no identity to prove):
+T5' (`geo_ecef_geo_residual`) states what does hold exactly; the bound 1e-9° / 1 mm for −1 km ≤ h ≤ 10 km rests on the
+numerical evaluation of the residual functions of T5' (stream `resid`) and on the correspondence and transfer checks. -/
 theorem geo_ecef_geo_partial (g : V3 ℝ) (hlon1 : -180 < g.x) (hlon2 : g.x ≤ 180) (hlat1 : -90 < g.y) (hlat2 : g.y < 90)
     (h0 : g.z = 0) : ecefToGeo realTrig (geoToEcef realTrig g) = g :=
   ecefToGeo_geoToEcef_h0' g hlon1 hlon2 hlat1 hlat2 h0
